@@ -700,6 +700,54 @@ def _shape_rules(ctx: Ctx, rs: RuleSet):
            f'{len(ys)} yields, each self.call(child, element); generic branch '
            'zips flatten values with path elements', ctx.loc(ym, ym.node))
   map_children_rule(ctx, rs, rule)
+  # get_all_paths hands out a list of its own: what all_paths_to_object
+  # returns may be the traversal's cached list, which later queries read
+  gp = ctx.func(f'{DAG}.State.get_all_paths')
+  cached = roles.assigned_from(gp, lambda e: isinstance(e, ast.Call) and
+                               isinstance(e.func, ast.Attribute) and
+                               e.func.attr == 'all_paths_to_object')
+
+  def _fresh_list(e, depth=0):
+    if isinstance(e, (ast.ListComp, ast.List)):
+      return True
+    if isinstance(e, ast.Call) and isinstance(e.func, ast.Name) and (
+        e.func.id in ('list', 'sorted')):
+      return True
+    if isinstance(e, ast.BinOp) and isinstance(e.op, ast.Add):
+      return _fresh_list(e.left, depth) or _fresh_list(e.right, depth)
+    if isinstance(e, ast.IfExp):
+      return _fresh_list(e.body, depth) and _fresh_list(e.orelse, depth)
+    if isinstance(e, ast.Name) and depth < 3 and e.id not in cached:
+      ds = roles.defs_of(gp, e.id)
+      return bool(ds) and all(_fresh_list(d, depth + 1) for d in ds)
+    return False
+
+  grets = [r for r in walk_function(gp.node) if isinstance(r, ast.Return)
+           and r.value is not None]
+  bad = [r for r in grets if not _fresh_list(r.value)]
+  rs.check(bool(grets) and not bad, rule, f'{gp.qualname}:fresh-result',
+           'every result is a newly built list' if not bad else
+           f'`{unparse(bad[0])[:60]}` hands out a list that is not built for '
+           'this call (the cached result of all_paths_to_object): a caller '
+           'that edits its answer changes what every later query about the '
+           'same object reports', ctx.loc(gp, bad[0] if bad else gp.node))
+  # which values count as (traversable) named tuples: every class deriving
+  # from tuple with the namedtuple protocol, also one derived from a
+  # NamedTuple class (a direct-base test makes such values opaque leaves)
+  nt = ctx.func(f'{DAG}.is_namedtuple_subclass')
+  tp = nt.params[0]
+  sub_ok = any(isinstance(c, ast.Call) and unparse(c.func) == 'issubclass' and
+               [unparse(a) for a in c.args] == [tp, 'tuple']
+               for c in ast.walk(nt.node))
+  narrow = [n for n in ast.walk(nt.node) if isinstance(n, ast.Attribute) and
+            n.attr in ('__bases__', '__base__')]
+  rs.check(sub_ok and not narrow, rule, f'{nt.qualname}:subclass-test',
+           'issubclass(type, tuple) plus the namedtuple protocol' if (
+               sub_ok and not narrow) else
+           'the tuple test looks at the direct bases only: an instance of a '
+           'class derived from a NamedTuple is treated as a leaf, so paths '
+           'below it are not enumerated and a rebuild returns the original '
+           'object', ctx.loc(nt, nt.node))
   # collect_paths_by_id uses an un-memoized traversal and appends current_path
   cp = ctx.func(f'{DAG}.collect_paths_by_id')
   uses_basic = any(unparse(c.func) == 'BasicTraversal' for c in ctx.calls(cp))
